@@ -154,11 +154,7 @@ theorem stripPing_none_append (b X : Bytes) (hne : b ≠ []) (h : stripPing b = 
 theorem parseBytes_append (b X : Bytes) (h : parseBytes b ≠ .need) :
     parseBytes (b ++ X) = (parseBytes b).ext X := by
   unfold parseBytes at h ⊢
-  have h1 := parseFrame_stable X (b.length + 1) b h
-  have hne : parseFrame (b.length + 1) (b ++ X) ≠ .need := by
-    rw [h1]
-    cases hp : parseFrame (b.length + 1) b <;> simp [Res.ext, hp] at h ⊢
-  rw [parseFrame_fuel_mono (by simp) (b ++ X) hne, h1]
+  exact parseFrame_stable X (maxNesting + 1) b h
 
 theorem ws_skip_norm (q : Nat → Bool) (hq : ∀ a, q a = true → isWs a = true) (t X : Bytes) :
     ((t ++ X).dropWhile q).dropWhile isWs = (t.dropWhile q ++ X).dropWhile isWs := by
